@@ -237,6 +237,10 @@ class GhostSolver:
         self.unsat_facts = []  # list of formula-lists known to be unsatisfiable
         self.n_push = 0
         self.n_pop = 0
+        # loop-contract abstraction: frames[:base_len] are the frames at loop entry; the frames above
+        # summarise `scope_offset + (len(frames) - base_len)` pushed scopes
+        self.base_len = None
+        self.scope_offset = 0
         current().events.append(("solver", self))
 
     # -- stack
@@ -265,9 +269,24 @@ class GhostSolver:
         self.n_push += 1
         self.history.append(("push",))
 
+    def pushed_count(self):
+        """number of scopes pushed since loop entry (python int or symbolic)"""
+        if self.base_len is None:
+            return len(self.frames) - 1
+        return self.scope_offset + (len(self.frames) - self.base_len)
+
     def pop(self, num=1):
-        if isinstance(num, SymInt):
-            raise sym.Unsupported("pop(symbolic)")
+        if isinstance(num, SymInt) or sym.is_sym(self.scope_offset):
+            # only "pop everything pushed since loop entry" is modelled for a symbolic count
+            p = current()
+            want = sym._term(self.pushed_count())
+            if p.engine.feasible(p.pc + [sym._term(num) != want]):
+                raise sym.Unsupported(f"pop({num}) is not provably the number of scopes pushed ({want})")
+            del self.frames[self.base_len :]
+            self.scope_offset = 0
+            self.n_pop += 1
+            self.history.append(("pop-all",))
+            return
         for _ in range(num):
             if len(self.frames) <= 1:
                 raise z3.Z3Exception("index out of bounds")
@@ -276,7 +295,9 @@ class GhostSolver:
             self.history.append(("pop",))
 
     def num_scopes(self):
-        return len(self.frames) - 1
+        if self.base_len is None:
+            return len(self.frames) - 1
+        return (self.base_len - 1) + self.pushed_count()
 
     def stack(self):
         return [f for fr in self.frames for f, _ in fr]
@@ -330,14 +351,18 @@ class GhostSolver:
         return "unknown"
 
     def unsat_core(self):
-        """any subset of the tracked names (the exploration forks on membership)"""
+        """a subset of the tracked names.  The exploration forks over the family: every singleton, every
+        pair, and the whole tracked set (the real code treats the elements of a core one by one, so larger
+        subsets add no new behaviour; the family is a stated bound, not an exhaustive enumeration)"""
         if self.last != z3.unsat:
             raise z3.Z3Exception("core is not available")
+        import itertools as _it
+
         p = current()
-        core = []
-        for f, n in self.tracked():
-            if p.choice(2) == 0:
-                core.append(CoreItem(n))
+        names = [n for _, n in self.tracked()]
+        family = [(n,) for n in names] + list(_it.combinations(names, 2)) + [tuple(names)]
+        pick = family[p.choice(len(family))] if family else ()
+        core = [CoreItem(n) for n in pick]
         self.core = core
         return core
 
